@@ -5,7 +5,7 @@ set -u
 NAME=$1; PROP=$2; SRC=$3; TESTS=$4
 WT=/tmp/seedverify_$$
 git -C /repo worktree add -q --detach $WT HEAD || exit 3
-cd $WT
+cd $WT; export JOBLIB_ROOT=$WT
 PYTHONPATH=$WT timeout 600 ${PY:-/venv/bin/python} $SRC/demo.py >/tmp/sv_clean.log 2>&1; CLEAN=$?
 git apply $SRC/patch.diff || { echo "patch does not apply"; cd /; git -C /repo worktree remove --force $WT; exit 3; }
 PYTHONPATH=$WT timeout 600 ${PY:-/venv/bin/python} $SRC/demo.py >/tmp/sv_mut.log 2>&1; MUT=$?
